@@ -57,6 +57,9 @@ TMP = os.environ.get("TMPDIR")
 
 def one(job):
     """convert a private deep copy of the input; -> result dict"""
+    if "wb_hex" in job:
+        # a file's bytes (an .xlsx workbook): the readers' own caches and tables are part of the state under test
+        job = dict(job, wb=bytes.fromhex(job["wb_hex"]), args=dict(job.get("args") or {}, file_type=job.get("file_type")))
     wb = copy.deepcopy(job["wb"])
     try:
         r = convert(wb, pretty_print=bool(job.get("pretty")), **(job.get("args") or {}))
